@@ -73,7 +73,7 @@ def x1(ctx, rid):
             continue
         n += 1
         key = 'reserve+write|%s' % c.fn.id
-        res = [o for o in ogs if o.kind == 'call' and o.data.name == 'fetch_add']
+        res = [o for o in ogs if o.kind == 'call' and prims.is_reservation(prog, o.fn, o.data)]
         bad = []
         for o in res:
             if o.fn.is_coroutine:
@@ -99,7 +99,7 @@ def x1(ctx, rid):
     # any fetch_add on size at all must be in a non-coroutine body
     for f in prog.fns.values():
         for c in f.calls:
-            if c.name == 'fetch_add' and c.path.startswith('std::sync::atomic::Atomic') and prims.receiver_field(f, c) == 'size':
+            if prims.is_reservation(prog, f, c):
                 n += 1
                 if f.is_coroutine:
                     ctx.bad(rid, 'reserve-in-coroutine|%s' % f.id, c.where(), 'file offset reserved in an async body: a suspension point can separate the reservation from the write')
@@ -485,6 +485,25 @@ def x11(ctx, rid):
     ctx.ok(rid, 'scan', '', '%d increment / decrement pairs on shared atomic counters in client-cancellable bodies, %d split by a suspension point' % (n, bad), nontrivial=False, queries=max(1, n))
 
 
+_LAUNCH = {}
+
+
+def _launches(prog, fid, depth):
+    """`fid` is Observer::run (Created -> Running), or a non-async in-crate function that calls one (launch_observer, a helper
+    around it)"""
+    if fid.endswith('observer::Observer::<K>::run') or fid.endswith('observer::Observer::run'):
+        return True
+    if fid not in prog.fns or depth <= 0:
+        return False
+    if fid in _LAUNCH:
+        return _LAUNCH[fid]
+    _LAUNCH[fid] = False
+    g = prog.body_of(fid)
+    if g is not None and not g.is_coroutine:
+        _LAUNCH[fid] = any(c.bb in g.reachable() and any(_launches(prog, t, depth - 1) for t in prog.resolve(c)) for c in g.calls)
+    return _LAUNCH[fid]
+
+
 def x12(ctx, rid):
     """an abandoned init can be repeated: Storage::init* moves the observer from Created to Running only after its last suspension
     point.  Launched earlier, a future dropped at any await of the initialisation (read_dir, opening or scanning a blob, an index
@@ -495,7 +514,7 @@ def x12(ctx, rid):
     for f in prog.fns.values():
         if f.file != 'src/storage/core.rs' or not f.is_coroutine:
             continue
-        launches = [c for c in f.calls if c.bb in f.reachable() and (c.name == 'launch_observer' or any(t.endswith('::launch_observer') or t.endswith('observer::Observer::<K>::run') for t in prog.resolve(c)))]
+        launches = [c for c in f.calls if c.bb in f.reachable() and any(_launches(prog, t, 3) for t in prog.resolve(c))]
         if not launches:
             continue
         n += 1
@@ -550,20 +569,29 @@ def x13(ctx, rid):
         memo[fid] = bool(ev) and not rets
         return memo[fid]
     n = 0
+
+    def check_from(f, c, key, depth):
+        """every path from the completion of `c` (a reservation, or a call of a helper that hands an unwritten reservation to its
+        caller) to a return attempts the write; a helper that returns the reserved offset is followed into its callers"""
+        ev = attempts(f.id)
+        reach = f.reach_from(f.after(c.bb), avoid_exit=ev)
+        rets = [i for i in reach if f.blocks[i]['t']['k'] == 'return' and i not in ev]
+        if not rets:
+            ctx.ok(rid, key, c.where(), 'every path from the reservation reaches one of %d write attempts' % len(ev))
+            return
+        sites = core.call_sites_of(prog, f.id) if (depth > 0 and not f.is_coroutine and f.kind != 'Closure') else []
+        if not sites or ev:
+            ctx.bad(rid, key, c.where(), 'a path from the reservation returns without attempting the write of the reserved range (%s): the next append leaves a hole the start-up scan cannot parse' % f.where(rets[0]))
+            return
+        for c2 in sites:
+            check_from(c2.fn, c2, key, depth - 1)
     for f in prog.fns.values():
         if not f.file.startswith('src/io/'):
             continue
         for c in f.calls:
-            if c.bb in f.reachable() and c.name == 'fetch_add' and c.path.startswith('std::sync::atomic::Atomic') and prims.receiver_field(f, c) == 'size':
+            if c.bb in f.reachable() and prims.is_reservation(prog, f, c):
                 n += 1
-                key = 'reserved-range-written|%s' % prog.fns[f.id].root
-                ev = attempts(f.id)
-                reach = f.reach_from(f.after(c.bb), avoid_exit=ev)
-                rets = [i for i in reach if f.blocks[i]['t']['k'] == 'return' and i not in ev]
-                if rets:
-                    ctx.bad(rid, key, c.where(), 'a path from the reservation returns without attempting the write of the reserved range (%s): the next append leaves a hole the start-up scan cannot parse' % f.where(rets[0]))
-                else:
-                    ctx.ok(rid, key, c.where(), 'every path from the reservation reaches one of %d write attempts' % len(ev))
+                check_from(f, c, 'reserved-range-written|%s' % prog.fns[f.id].root, 2)
     if n < 2:
         raise core.AnchorLost('reservations of file space: %d' % n)
 
